@@ -80,6 +80,7 @@ pub fn record(g: &mut Gen, assign: &[Option<usize>], w: [u64; 4], force_unselect
 }
 
 pub fn gen_c01(ctx: &Ctx, rng: &mut Rng, out: &mut Vec<String>) {
+    gen_wide_output("c01", out);
     let mut g = Gen { rng };
     // exhaustive small scope (in-process): all maps of 3 columns into <= 2 populations x all records over {0,1,2,m}^3
     let codes = ["0", "1", "2", "m"];
@@ -152,6 +153,14 @@ pub fn gen_c01(ctx: &Ctx, rng: &mut Rng, out: &mut Vec<String>) {
             }
         }
     }
+}
+
+/// ten populations of one sample each: 3^10 = 59049 cells, a value line of more than 64 KiB at precision 0
+pub fn gen_wide_output(p: &str, out: &mut Vec<String>) {
+    let cols: Vec<String> = (0..10).map(|i| format!("s{i}")).collect();
+    let sl = format!("s:{}", (0..10).map(|i| format!("s{i}=P{i}")).collect::<Vec<_>>().join(","));
+    let recs = "1~5~0/0,0/0,0/0,0/0,0/0,0/0,0/0,0/0,0/0,0/0;1~6~0/1,0/0,1/1,0/0,0/0,0/1,0/0,0/0,0/0,1/0;1~7~0/1,0/0,1/1,0/0,0/0,0/1,0/0,0/0,0/0,1/0;1~8~1/1,1/1,1/1,1/1,1/1,1/1,1/1,1/1,1/1,1/1;1~9~1/1,0|1,1/1,1/1,0/0,1/1,./.,1/1,1/1,1/1;2~4~1/1,1/1,0/1,1/1,1/1,1/0,1/1,1/1,1/1,0/1";
+    out.push(format!("{p}.cli\tvcf\tstdin\t4\t0\t0\t{}\t{sl}\tN\t0\t-\t{recs}", cols.join(",")));
 }
 
 pub fn gen_c08(ctx: &Ctx, rng: &mut Rng, out: &mut Vec<String>) {
@@ -233,6 +242,16 @@ pub fn gen_c08(ctx: &Ctx, rng: &mut Rng, out: &mut Vec<String>) {
 }
 
 pub fn gen_c09(ctx: &Ctx, rng: &mut Rng, out: &mut Vec<String>) {
+    // an EMPTY population label (`a=`, or `a<TAB>` in a samples file) is a label like any other and not the same as no label at all;
+    // an empty ITEM of the list (`a=X,,b=Y`, a blank line in the file) names the sample `` — which no input has
+    for (k, sl) in ["a=,b=X,c", "c,a=,b=X", "a=,c=", "a=E,b=X,c", "a=,b=,c", "a,b=,c=", "a=X,,b=Y", ",a=X", "a=X,b=Y,", "a=X,,b=Y,,c=Z", "a,,c"].into_iter().enumerate() {
+        let recs = "1~5~0/1,1/1,0/0;1~6~1/1,0/1,0/1;1~7~0/0,0/1,1/1;2~3~0|1,0|0,1|1";
+        for via in ["s", "S"] {
+            if !ctx.tier_thorough && via == "S" && k % 2 == 1 { continue; }
+            out.push(format!("c09.cli\tvcf\tpath\t4\t0\t0\ta,b,c\t{via}:{sl}\tN\t0\t-\t{recs}"));
+            if k % 3 == 0 { out.push(format!("c09.cli\tvcf\tstdin\t4\t0\t0\ta,b,c\t{via}:{sl}\tshape:2,2,2\t0\t6\t{recs}")); }
+        }
+    }
     let mut g = Gen { rng };
     let n = if ctx.tier_thorough { 1500 } else { 150 };
     for i in 0..n {
